@@ -18,7 +18,12 @@ def negative_stream(res, rnd, tier, seed, prop):
     scope, narrowed names used where they are not narrowed): the checker should reject them; whatever it
     accepts must still run without panic (C02) and without leaving its static types (C01)"""
     base, _ = P.generate(seed + 11, 150 if tier == "quick" else 4000, max_depth=3, features=dict(mark=0.0))
-    muts = [("template", t) for t in mutants.narrowing_templates()] + mutants.mutants(rnd, base, 2)
+    if prop == "C13":
+        # typed content of cells: only the stores of a value outside the cell's content type
+        muts = [("assign-template", t) for t in mutants.assignment_templates()]
+    else:
+        muts = [("template", t) for t in mutants.narrowing_templates()] + \
+            [("assign-template", t) for t in mutants.assignment_templates()] + mutants.mutants(rnd, base, 2)
     recs = P.run_programs([m for _, m in muts], broken_model=True)
     res.streams["negative"] = dict(programs=len(muts))
     acc = 0
@@ -37,11 +42,11 @@ def negative_stream(res, rnd, tier, seed, prop):
             res.violation("an ill-formed program (%s) is accepted and panics at %s: `%s`" % (kind, r.panic_at, r.src[:400]),
                           dict(program=r.src, flags=r.flags, impl=r.impl),
                           dict(oracle="panic", root=progprop.root_of(r) or ("site:" + str(r.panic_at)), rootcls=progprop.root_class(r)))
-        elif prop == "C01" and progprop.root_class(r) is not None:
+        elif prop in ("C01", "C13") and progprop.root_class(r) is not None:
             res.violation("an ill-formed program (%s) is accepted and a value leaves its static type: %s in `%s`" %
                           (kind, r.impl[-300:], r.src[:300]), dict(program=r.src, flags=r.flags, impl=r.impl),
                           dict(oracle="monitor", rootcls=progprop.root_class(r)))
-        elif prop == "C01" and "(value " in r.impl and ("tag=0" in r.impl or "content=0" in r.impl):
+        elif prop in ("C01", "C13") and "(value " in r.impl and ("tag=0" in r.impl or "content=0" in r.impl):
             res.violation("an ill-formed program (%s) is accepted and its final value is outside the static type %s: `%s` -> %s" %
                           (kind, r.static, r.src[:300], r.impl[:200]), dict(program=r.src, flags=r.flags, impl=r.impl),
                           dict(oracle="final-type", cls=str(r.static)[:40]))
